@@ -285,7 +285,7 @@ func checkChain(c *stepCtx, st *chainState, prev, cur *jOutcomeView, vc voteCoun
 }
 
 // C18 on one transition
-func checkTSV(c *stepCtx, prev, cur *jOutcomeView) (checked int) {
+func checkTSV(c *stepCtx, prev, cur *jOutcomeView, obs []any, counted []int) (checked int) {
 	referenced := map[[2]uint32]bool{}
 	for _, d := range cur.defs {
 		for _, s := range jArr(jget(d, "streams")) {
@@ -312,6 +312,22 @@ func checkTSV(c *stepCtx, prev, cur *jOutcomeView) (checked int) {
 			checked++
 			if jU64(cm["at"]) < jU64(pm["at"]) {
 				c.bad("observed-at-decreased", fmt.Sprintf("stream %d aggregator %d: observed-at went from %s to %s", k[0], k[1], jStr(pm["at"]), jStr(cm["at"])))
+			}
+		} else {
+			// the timestamped aggregate was replaced by a value of another type: legitimate only as a fresh
+			// aggregate, which needs more than f counted observations of that type for the stream
+			n := 0
+			for _, i := range counted {
+				for _, e := range jArr(jObj(obs[i])["values"]) {
+					// (the median of quotes is the decimal benchmark: both kinds can back a decimal aggregate)
+					vt := jStr(jObj(jget(e, "v"))["t"])
+					if jU32(jget(e, "sid")) == k[0] && (vt == jStr(cm["t"]) || (jStr(cm["t"]) == "dec" && vt == "quote")) {
+						n++
+					}
+				}
+			}
+			if n <= c.f {
+				c.bad("timestamped-aggregate-replaced", fmt.Sprintf("stream %d aggregator %d: the timestamped aggregate was replaced by a %s value although only %d counted observation(s) carry a value of that type (f = %d)", k[0], k[1], jStr(cm["t"]), n, c.f))
 			}
 		}
 	}
@@ -440,7 +456,7 @@ func lloMonitor(prop string) Monitor {
 				checkTransition(c, prev, cur, vc)
 				nontrivial = len(vc.rm)+len(vc.upd)+vc.retire > 0 || vc.validRR
 			case "C18":
-				nontrivial = checkTSV(c, prev, cur) > 0
+				nontrivial = checkTSV(c, prev, cur, jArr(op["obs"]), vc.counted) > 0
 			case "C02":
 				nontrivial = checkHonestRange(c, cur, jArr(op["obs"]), jArr(op["honest"]), vc) > 0
 			}
@@ -484,7 +500,7 @@ func lloMonitor(prop string) Monitor {
 				case "C03":
 					checkChain(c, st, prev, cur, vc, reports)
 				case "C18":
-					tsv += checkTSV(c, prev, cur)
+					tsv += checkTSV(c, prev, cur, jArr(jget(rounds[i], "obs")), vc.counted)
 				case "C02":
 					if checkHonestRange(c, cur, jArr(jget(rounds[i], "obs")), jArr(jget(rounds[i], "honest")), vc) > 0 {
 						nontrivial = true
